@@ -279,11 +279,83 @@ def tail_has_semicolon_at(tail, rest):
     return full[len(full) - rest] == ';'
 
 
+def real_class_head(key, toks):
+    try:
+        d = impl.parse_string(key + " S " + ' '.join(toks) + " } ;")
+    except (impl.CxxParseError, AssertionError, RecursionError):
+        return ('err',)
+    ns = d.namespace
+    if len(ns.classes) != 1 or ns.variables or ns.functions:
+        return ('other',)
+    cd = ns.classes[0].class_decl
+    out = []
+    for b in cd.bases:
+        segs = b.typename.segments
+        if len(segs) != 1 or getattr(segs[0], "specialization", None) is not None or not hasattr(segs[0], "name"):
+            return ('other',)
+        out.append((b.access, segs[0].name, b.virtual, b.param_pack))
+    return ('ok', cd.final, cd.explicit, out)
+
+
+def corr_class_heads(ctx, corr):
+    """class heads after the name: final / explicit, base clause, opening brace"""
+    from harness import decl
+    from harness.props import c02
+    rng = ctx.rng
+    cases = []
+    for _ in range(ctx.scale(600, 12000)):
+        key = rng.choice(["struct", "class"])
+        default = "private" if key == "class" else "public"
+        toks = [rng.choice(['final', 'explicit']) for _ in range(rng.choice([0, 0, 0, 1, 2]))]
+        nb = rng.choice([0, 0, 1, 2, 3])
+        if nb:
+            toks.append(':')
+            for i in range(nb):
+                acc = rng.choice([None, "public", "private", "protected"])
+                mods = ([acc] if acc else []) + (['virtual'] if rng.random() < 0.3 else [])
+                rng.shuffle(mods)
+                if i:
+                    toks.append(',')
+                toks += mods + ['B%d' % i] + (['...'] if rng.random() < 0.1 else [])
+        toks.append('{')
+        cases.append((key, default, toks))
+        if rng.random() < 0.4:
+            mt = [t for t in c02.mutate(rng, toks[:-1]) if t in ('final', 'explicit', ':', ',', 'virtual', 'public', 'private', 'protected', '...') or t[0] == 'B'] + ['{']
+            cases.append((key, default, mt))
+    lines, nms = [], []
+    for key, default, toks in cases:
+        names = decl.Names()
+        lines.append([95, impl.CODE[default]] + decl.enc_tokens(toks + ['}', ';'], names))
+        nms.append(names)
+    outs = run_driver(lines)
+    for (key, default, toks), o, names in zip(cases, outs, nms):
+        corr.cases += 1
+        if o[0] == 0:
+            k = o[4]
+            m = ('ok', bool(o[2]), bool(o[3]), [(impl.TT[o[5 + 4 * i]], names.rev.get(o[6 + 4 * i], '?'), bool(o[7 + 4 * i]), bool(o[8 + 4 * i])) for i in range(k)], o[1])
+        else:
+            m = ('err', o[1])
+        r = real_class_head(key, toks)
+        corr.dist["head:" + m[0] + "/" + r[0]] = corr.dist.get("head:" + m[0] + "/" + r[0], 0) + 1
+        msg = None
+        if m[0] == 'ok' and m[4] == 2:
+            if r[0] == 'err':
+                msg = "model decodes the class head but the implementation rejects it"
+            elif r[0] == 'ok' and tuple(r) != tuple(m[:4]):
+                msg = "model %s; implementation %s" % (m[:4], r)
+        elif m[0] == 'err' and m[1] in (1, 2, 3) and r[0] == 'ok':
+            msg = "model rejects (code %d) but the implementation reports %s" % (m[1], r)
+        if msg:
+            corr.disagreements.append(dict(case=dict(kind='corr-head', key=key, tokens=toks), model=str(m)[:300], impl=str(r)[:300],
+                                           what="class head `%s S %s`: %s" % (key, ' '.join(toks), msg)))
+
+
 def correspond(ctx):
     corr = c05.correspond(ctx)
     corr_bases(ctx, corr)
     corr_fields(ctx, corr)
     corr_method_ends(ctx, corr)
+    corr_class_heads(ctx, corr)
     corr.note += " | base clauses: extracted Parse/BaseClause.v vs class_decl.bases of parse_string on valid and mutated clauses (class keys struct / class / union)"
     return corr
 
